@@ -142,6 +142,15 @@ def gen_shape(rng, kind=None, rectilinear=False, huge_T=None):
         T = float(huge_T or 2 ** 18)
         sgn = rng.choice([1, -1])
         polys = [[[(cx - dx * T, cy - dy * T), (cx + dx * T, cy + dy * T), (cx - sgn * dy * T, cy + sgn * dx * T)], []]]
+    elif kind == 'hugenotch':
+        # a half plane (thousands of km wide) below the line y = cy with a small rectangular notch inside the query
+        # bbox: border detail far below 1e-6 of the extent of the geometry
+        T = float(huge_T or 2 ** 18)
+        cy = q(0.5, 0.8)
+        nx0 = q(0.15, 0.4)
+        nx1 = nx0 + q(0.3, 0.5)
+        d = q(0.2, 0.35)
+        polys = [[[(-T, -T), (T, -T), (T, cy), (nx1, cy), (nx1, cy - d), (nx0, cy - d), (nx0, cy), (-T, cy)], []]]
     elif kind in ('fanA', 'fanB'):
         # two different polygons with the same four leading vertices (two users, one view)
         pre = [(-0.5, -0.5), (-0.5, 1.5), (-0.4375, 1.5), (-0.4375, 1.4375)]
@@ -257,16 +266,18 @@ def shape_bounds(shape):
 
 
 def is_rectilinear(shape):
-    return shape['kind'] in ('rect', 'lshape', 'hole', 'multi', 'all', 'far', 'bigl', 'bighole', 'frame', 'fanA', 'fanB')
+    return shape['kind'] in ('rect', 'lshape', 'hole', 'multi', 'all', 'far', 'bigl', 'bighole', 'frame', 'fanA', 'fanB', 'hugenotch')
 
 
 def gen_geom(rng, q_srs_choices=('EPSG:4326', 'EPSG:3857'), kind=None, huge_T=None):
     """a geometry spec: shape + form + srs (srs None = the srs of the query)"""
-    cross = rng.random() < 0.35 and kind != 'huge'
+    cross = rng.random() < 0.35 and kind not in ('huge', 'hugenotch')
     shape = gen_shape(rng, kind=kind, rectilinear=cross, huge_T=huge_T)
     forms = ['wkt', 'shapely', 'wkt_multi']
     if shape['kind'] in ('rect', 'all', 'far'):
         forms += ['bbox', 'bbox']
+    if shape['kind'] == 'hugenotch':
+        forms = ['wkt', 'wkt', 'wkt_multi', 'shapely']
     return {'shape': shape, 'form': rng.choice(forms),
             'srs': rng.choice(['EPSG:4326', 'EPSG:3857', 'EPSG:900913']) if cross else None}
 
@@ -703,6 +714,9 @@ def gen_config(rng):
         k = zlib.crc32(json.dumps([sc, tree], sort_keys=True).encode()) % 4
         if sc['id'] not in used and k >= 2:
             sc['coverage'] = {'bbox': list(SRC_COVERAGE), 'clip': k == 3}
+    # services.wms.on_source_errors: raise selects the other render loop of LayerRenderer (checksum, not rng)
+    if zlib.crc32(json.dumps(tree, sort_keys=True).encode()) % 5 < 2:
+        cfg['on_source_errors'] = 'raise'
     if rng.random() < 0.3:
         x0, y0 = rng.randrange(-150, -60), rng.randrange(-70, -20)
         cfg['wms_extent'] = {'srs': 'EPSG:4326', 'bbox': [x0, y0, x0 + rng.randrange(90, 200), y0 + rng.randrange(50, 100)]}
@@ -742,7 +756,8 @@ def config_yaml(cfg, d):
     doc = {
         'services': {'wms': dict({'md': {'title': 't'}, 'srs': ['EPSG:4326', 'EPSG:3857'],
                                   'image_formats': ['image/png', 'image/jpeg']},
-                                 **({'bbox_srs': ['EPSG:3857', dict(cfg['wms_extent'])]} if cfg.get('wms_extent') else {})),
+                                 **({'bbox_srs': ['EPSG:3857', dict(cfg['wms_extent'])]} if cfg.get('wms_extent') else {}),
+                                 **({'on_source_errors': cfg['on_source_errors']} if cfg.get('on_source_errors') else {})),
                      'tms': {}, 'kml': {},
                      'wmts': {'restful': True, 'kvp': True, 'featureinfo_formats': [{'mimetype': 'text/plain', 'suffix': 'txt'}]}},
         'layers': [lay(t) for t in cfg['tree']],
@@ -932,11 +947,11 @@ def gen_requests(rng, cfg, nreq):
                     lays[n] = {'map': 'true'}
                     if rng.random() < 0.6:
                         lays[n]['limited_to'] = len(geoms) + 1
-                        geoms[str(len(geoms) + 1)] = gen_geom(rng, kind='huge', huge_T=2 ** 18)
+                        geoms[str(len(geoms) + 1)] = gen_geom(rng, kind=rng.choice(['huge', 'hugenotch']), huge_T=2 ** 18)
             glob = None
             if rng.random() < 0.4:
                 glob = len(geoms) + 1
-                geoms[str(glob)] = gen_geom(rng, kind='huge', huge_T=2 ** 18)
+                geoms[str(glob)] = gen_geom(rng, kind=rng.choice(['huge', 'hugenotch']), huge_T=2 ** 18)
             req['cb'] = {'kind': 'partial', 'layers': lays, 'limited_to': glob, 'geoms': geoms}
         if req['type'] == 'tile' and req['cb'] is not None:
             # The tile services intersect the layer's and the global geometry in the SRS of the first one, so one of
@@ -1028,7 +1043,16 @@ def geom_key_of(srs, geom):
         return ('empty',)
     # bounds alone are ambiguous (an intersection that keeps a sliver of a second part has the bounds of the
     # whole geometry): the area, to six significant digits, is part of the key
-    return (srs.srs_code, tuple(round(v, 3) for v in geom.bounds), float('%.6g' % geom.area))
+    # plus a digest of the vertex set (order independent): big geometries that differ in a small detail only agree in
+    # bounds and, to six digits, in area
+    pts = set()
+    for poly in (geom.geoms if hasattr(geom, 'geoms') else [geom]):
+        if poly.geom_type != 'Polygon':
+            continue
+        for ring in [poly.exterior] + list(poly.interiors):
+            for x, y in ring.coords:
+                pts.add((round(x, 3), round(y, 3)))
+    return (srs.srs_code, tuple(round(v, 3) for v in geom.bounds), float('%.6g' % geom.area), hash(tuple(sorted(pts))))
 
 
 def geom_key(cov):
@@ -1463,7 +1487,7 @@ def handle_map(ctx, cfg, req, cb, resp, status, rec, up_map, tree, names, extent
             if (not jpeg and got != bg) or (jpeg and max(abs(a - b) for a, b in zip(got, bg)) > 24):
                 blend = (not req['transparent']) and mc is not None and any(
                     o is not None and o.opacity is not None and o.opacity < 1 for _m, o, _c, _i, _cv in mc['layers'])
-                ctx.fail(SIG_BLEND if blend else 'map,layer-clip-leak',
+                ctx.fail('map,layer-clip-leak,layer-with-opacity' if blend else 'map,layer-clip-leak',
                          'pixel (%d,%d) lies outside the geometry of every rendered layer but is %r (background %r)'
                          % (x, y, got, bg), rep)
                 return
@@ -1840,6 +1864,11 @@ def stream_app(ctx, corpus):
                 bias_callback(r2, cbk, cnames, 'map')
             reqs.append({'type': 'caps', 'cb': cbk if r2.random() < 0.95 else None})
         run_app_config(ctx, cfg, reqs, out)
+    try:
+        stream_utm(ctx, out)
+    except Exception as e:  # noqa
+        import traceback
+        ctx.problem('harness', 'utm stream raised %r' % (e,), traceback.format_exc())
     corr(ctx, 'wms_map', 'Auth', MAP_TYPE, out['map_terms'], MAP_CHECK, lambda i: out['map_descr'][i], shard=150, defs=APP_DEFS)
     corr(ctx, 'wms_featureinfo', 'Auth', FI_TYPE, out['fi_terms'], FI_CHECK, lambda i: out['fi_descr'][i], shard=150, defs=APP_DEFS)
     corr(ctx, 'tile_render', 'Auth', TILE_TYPE, out['tile_terms'], TILE_CHECK, lambda i: out['tile_descr'][i], shard=200, defs=APP_DEFS)
@@ -1848,6 +1877,164 @@ def stream_app(ctx, corpus):
          shard=200, defs=APP_DEFS)
     corr(ctx, 'map_pixels', 'Auth', PX_TYPE, out['px_terms'], PX_CHECK, lambda i: out['px_descr'][i], shard=400, defs=APP_DEFS)
     corr(ctx, 'tile_pixels', 'Auth', TPX_TYPE, out['tpx_terms'], TPX_CHECK, lambda i: out['tpx_descr'][i], shard=400, defs=APP_DEFS)
+
+
+# ----------------------------------------------------------------------------------------------- stream utm
+
+UTM_GRID = {'srs': 'EPSG:25832', 'bbox': [-12000, 3976000, 1012000, 6024000], 'origin': 'nw', 'tile_size': [256, 256],
+            'res': [4000, 2000]}
+
+
+def stream_utm(ctx, out):
+    """Tile services on a UTM grid with a limit given in EPSG:4326 (a parallel of latitude, densified): the edges of a
+    tile are curved in the SRS of the limit, its corners do not decide whether the tile lies inside.  The truth
+    (latitude of every pixel, extreme latitudes of the tile outline) is computed with pyproj by the harness."""
+    import yaml
+    import pyproj
+    import mapproxy.client.http as H
+    from mapproxy.wsgiapp import make_wsgi_app
+    from webtest import TestApp
+    d = ctx.tmpdir('utm')
+    doc = {
+        'services': {'tms': {}, 'wmts': {'restful': True, 'kvp': True}, 'wms': {'md': {'title': 't'}, 'srs': ['EPSG:25832']}},
+        'layers': [{'name': 'l0', 'title': 'l0', 'sources': ['c0']}],
+        'caches': {'c0': {'grids': ['gutm'], 'sources': ['s0'], 'format': 'image/png', 'meta_size': [1, 1], 'meta_buffer': 0,
+                          'disable_storage': True}},
+        'sources': {'s0': {'type': 'wms', 'req': {'url': 'http://upstream.invalid/s', 'layers': 'u0'},
+                           'supported_srs': ['EPSG:25832']}},
+        'grids': {'gutm': UTM_GRID},
+        'globals': {'cache': {'base_dir': os.path.join(d, 'cache'), 'lock_dir': os.path.join(d, 'locks'),
+                              'tile_lock_dir': os.path.join(d, 'tlocks')}},
+    }
+    path = os.path.join(d, 'mapproxy.yaml')
+    with open(path, 'w') as f:
+        yaml.safe_dump(doc, f)
+    up = Upstream()
+    orig_open = H.HTTPClient.open
+    H.HTTPClient.open = lambda self, url, data=None, method=None: up.open(url, data, method)
+    tr = pyproj.Transformer.from_crs('EPSG:25832', 'EPSG:4326', always_xy=True)
+    try:
+        try:
+            tapp = TestApp(make_wsgi_app(path))
+        except Exception as e:  # noqa
+            ctx.problem('harness', 'utm configuration rejected: %r' % (e,), doc)
+            return
+        rng = ctx.rng
+        tiles = [(0, 0, 0), (0, 0, 0), (0, 0, 0), (1, 0, 0), (1, 1, 0), (1, 0, 1)]      # z, x, y (nw origin)
+        for _ in range(ctx.n(16, 120)):
+            z, x, y = rng.choice(tiles)
+            res = UTM_GRID['res'][z]
+            span = 256 * res
+            bx0, by1 = UTM_GRID['bbox'][0] + x * span, UTM_GRID['bbox'][3] - y * span
+            bbox = [bx0, by1 - span, bx0 + span, by1]
+            # extreme latitudes of the outline (the edges are curved in EPSG:4326)
+            outline = []
+            for k in range(257):
+                t = k / 256.0
+                outline += [(bbox[0] + t * span, bbox[3]), (bbox[0] + t * span, bbox[1]),
+                            (bbox[0], bbox[1] + t * span), (bbox[2], bbox[1] + t * span)]
+            lats = list(tr.transform([e for e, _n in outline], [n_ for _e, n_ in outline])[1])
+            corner_top = min(tr.transform(bbox[0], bbox[3])[1], tr.transform(bbox[2], bbox[3])[1])
+            lat_max, lat_min = max(lats), min(lats)
+            mode = rng.choice(['between', 'between', 'between', 'cross', 'cross', 'above', 'below'])
+            if mode == 'between':       # above the upper corners, below the highest point of the upper edge
+                cut = corner_top + rng.choice([0.2, 0.3, 0.4, 0.5]) * (lat_max - corner_top)
+            elif mode == 'cross':
+                cut = lat_min + rng.choice([0.3, 0.5, 0.7]) * (corner_top - lat_min)
+            elif mode == 'above':
+                cut = lat_max + 0.5
+            else:
+                cut = lat_min - 0.5
+            mdeg = 1.2 * res / 111000.0
+            if min(abs(cut - lat_max), abs(cut - lat_min)) < mdeg:
+                continue
+            # the permitted area: south of the parallel `cut`, densified so that its reprojection is accurate
+            n = 1200
+            ring = [(-30.0, 20.0), (50.0, 20.0)] + [(50.0 - 80.0 * k / n, cut) for k in range(n + 1)]
+            wkt = 'POLYGON((' + ', '.join('%r %r' % p for p in ring + [ring[0]]) + '))'
+            form = rng.choice(['wkt', 'shapely'])
+            if form == 'shapely':
+                import shapely.wkt
+                geom = shapely.wkt.loads(wkt)
+            else:
+                geom = wkt
+            per_layer = rng.random() < 0.5
+            lt = {'srs': 'EPSG:4326', 'geometry': geom}
+            calls = []
+
+            def authorize(service, layers=[], environ=None, query_extent=None, **kw):
+                calls.append((service, list(layers), query_extent))
+                res_ = {'authorized': 'partial', 'layers': {'l0': {'tile': True}}}
+                if per_layer:
+                    res_['layers']['l0']['limited_to'] = lt
+                else:
+                    res_['limited_to'] = lt
+                return res_
+            svc = rng.choice(['tms', 'wmts_rest', 'wmts_kvp'])
+            if svc == 'tms':
+                ny = 2 ** z * 2
+                url = '/tms/1.0.0/l0/EPSG25832/%d/%d/%d.png' % (z, x, ny - 1 - y)
+            elif svc == 'wmts_rest':
+                url = '/wmts/l0/gutm/%d/%d/%d.png' % (z, x, y)
+            else:
+                url = ('/service?service=WMTS&request=GetTile&version=1.0.0&layer=l0&style=&tilematrixset=gutm&tilematrix=%d&'
+                       'tilecol=%d&tilerow=%d&format=image/png' % (z, x, y))
+            del up.log[:]
+            rep = {'stream': 'utm', 'url': url, 'tile_bbox': bbox, 'cut_latitude': cut, 'limit': 'layer' if per_layer else 'global',
+                   'form': form, 'corner_latitude': corner_top, 'highest_latitude_of_the_tile': lat_max}
+            try:
+                resp = tapp.get(url, extra_environ={'mapproxy.authorize': authorize}, expect_errors=True)
+                status = resp.status_int
+            except Exception as e:  # noqa
+                ctx.count('utm.exception.' + type(e).__name__)
+                continue
+            ctx.case(('utm', url, round(cut, 4), per_layer, form), True, rep)
+            ctx.count('utm.%s.%s' % (svc, mode))
+            if status != 200:
+                ctx.count('utm.status=%d' % status)
+                continue
+            if calls and calls[0][2] is not None:
+                qb = calls[0][2][1]
+                if any(abs(a - b) > 1e-3 for a, b in zip(qb, bbox)):
+                    ctx.count('utm.other-tile-bbox')     # the harness' idea of the tile is wrong: take the callback's
+                    continue
+            img = decode(resp)
+            if img is None or img.size != (256, 256):
+                ctx.fail('utm,bad-image', 'no 256x256 image', rep)
+                continue
+            rgba = img.convert('RGBA')
+            col = color_of(0)
+            leak = lost = None
+            pts = [(px, py) for py in range(0, 256, 2) for px in range(0, 256, 2)]
+            plats = tr.transform([bbox[0] + (px + 0.5) * res for px, _py in pts], [bbox[3] - (py + 0.5) * res for _px, py in pts])[1]
+            for (px, py), lat in zip(pts, plats):
+                if True:
+                    got = rgba.getpixel((px, py))
+                    if lat > cut + mdeg and got[3] != 0 and leak is None:
+                        leak = (px, py, got, lat)
+                    if lat < cut - mdeg and (got[3] != 255 or got[:3] != col) and lost is None:
+                        lost = (px, py, got, lat)
+            if leak:
+                ctx.fail('tile,clip-leak,curved-tile-edge', 'pixel (%d,%d) = %r lies at latitude %.4f, north of the permitted area '
+                         '(latitude <= %.4f), more than one pixel outside' % (leak + (cut,)), rep)
+            if lost:
+                ctx.fail('tile,content-lost-inside', 'pixel (%d,%d) = %r lies at latitude %.4f inside the permitted area '
+                         '(latitude <= %.4f)' % (lost + (cut,)), rep)
+            alphas = rgba.getchannel('A').getextrema()
+            if alphas == (255, 255):
+                obs = 'TO_full'
+            elif alphas == (0, 0):
+                obs = 'TO_empty'
+            else:
+                obs = 'TO_masked [1]'
+            cont, inter = lat_max < cut, lat_min < cut
+            cb = ('(Some (mk_cbres A_partial [(1, mk_perm F_missing F_missing F_true %s)] %s))'
+                  % (('(Some 1)', 'None') if per_layer else ('None', '(Some 1)')))
+            out['tile_terms'].append('(1, %s, %s, %s, (%s), %s, [])' % (cb, '[[1]]' if cont else '[]', '[[1]]' if inter else '[]',
+                                                                     obs, olit(bool(up.log), blit)))
+            out['tile_descr'].append(dict(rep, status=status, observed=obs, upstream=bool(up.log)))
+    finally:
+        H.HTTPClient.open = orig_open
 
 
 def load_corpus():
